@@ -243,6 +243,14 @@ def _header_roundtrips(py7zr, ai, R, tier, ev):
         ms.substreamsinfo.unpacksizes = list(sizes)
         ms.substreamsinfo.digests = list(crcs)
         ms.substreamsinfo.digestsdefined = [True] * nstream
+        if ci % 5 in (2, 4) and nstream >= 2:
+            # partially defined digest vector, an undefined entry in FRONT of a defined one among the patterns (seed C17-7): the defined
+            # digests are stored compactly and must come back at their streams
+            dd = [R.random() < 0.5 for _ in range(nstream)]
+            dd[R.randrange(0, nstream - 1)] = False
+            dd[-1] = True
+            ms.substreamsinfo.digestsdefined = dd
+        ddef = list(ms.substreamsinfo.digestsdefined)
         ms.substreamsinfo.num_unpackstreams_folders = [nstream]
         total = sum(sizes)
         if total >= 1 << 64:
@@ -331,7 +339,9 @@ def _header_roundtrips(py7zr, ai, R, tier, ev):
                 fld("unpacksizes", [le8(x) for x in sizes], [le8(x) for x in (ms2.substreamsinfo.unpacksizes or [f.get_unpack_size() for f in ms2.unpackinfo.folders])])
                 fld("folderunpack", [le8(fo.unpacksizes[-1]) for fo in ms.unpackinfo.folders], [le8(fo.unpacksizes[-1]) for fo in ms2.unpackinfo.folders])
                 fld("counts", list(counts), list(ms2.substreamsinfo.num_unpackstreams_folders))
-                fld("digests", [le8(x) for x in crcs], [le8(x) for x in ms2.substreamsinfo.digests])
+                fld("digests", [le8(x) if d else ["U"] for x, d in zip(crcs, ddef)],
+                    [le8(x) if d else ["U"] for x, d in zip(ms2.substreamsinfo.digests, ms2.substreamsinfo.digestsdefined)])
+                fld("digestsdefined", [int(d) for d in ddef], [int(d) for d in ms2.substreamsinfo.digestsdefined])
                 fld("numfiles", [len(files)], [len(h2.files_info.files)])
                 for a, b in zip(files, h2.files_info.files):
                     fld("name", [ord(c) for c in a["filename"]], [ord(c) for c in b.get("filename", "")])
